@@ -250,7 +250,32 @@ class Repo:
                     return m.functions[rest[0]]
                 if len(rest) == 2 and rest[0] in m.classes and rest[1] in m.classes[rest[0]].methods:
                     return m.classes[rest[0]].methods[rest[1]]
+                if len(rest) == 1 and rest[0] in m.bindings:
+                    # the name is still exported by the module but defined elsewhere (moved and re-exported)
+                    try:
+                        r = self.resolve_binding(m, rest[0])
+                    except AnalysisError:
+                        r = None
+                    if r is not None and r[0] == "func":
+                        return r[1]
         raise AnalysisError(f"anchor vanished: function {qual}")
+
+    def aliases_of(self, qualname):
+        """other dotted names under which the package exports the function defined as `qualname` (re-exports through imports)"""
+        if getattr(self, "_aliases", None) is None:
+            al = {}
+            for m in self.modules.values():
+                for name, bs in m.bindings.items():
+                    if not any(k == "from" for k, _ in bs):
+                        continue
+                    try:
+                        r = self.resolve_binding(m, name)
+                    except AnalysisError:
+                        continue
+                    if r is not None and r[0] == "func" and r[1].module is not m:
+                        al.setdefault(r[1].qualname, set()).add(f"{m.name}.{name}")
+            self._aliases = al
+        return self._aliases.get(qualname, ())
 
     def cls(self, qual):
         mn, _, cn = qual.rpartition(".")
